@@ -239,9 +239,14 @@ impl Scenario for OpenSim {
         let cfg = Cfg { start_clock, timeout: pick_timeout(&mut rng), policy: rng.u64() as u8 & if rng.chance(1, 4) { 0xff } else { 0x3f } };
 
         let mut rng = Rng::derive(seed, run, "opensim.plan");
-        let n = match tier {
-            Tier::Quick => rng.range(30, 120),
-            Tier::Thorough => rng.range(30, 300),
+        // mostly long timelines (a run costs about 0.4 µs per step), with a share of short ones
+        let n = if rng.chance(1, 5) {
+            rng.range(20, 200)
+        } else {
+            match tier {
+                Tier::Quick => rng.range(2000, 8000),
+                Tier::Thorough => rng.range(2000, 12000),
+            }
         };
         let pick_diff = |rng: &mut Rng| -> u32 {
             match rng.below(10) {
@@ -625,6 +630,6 @@ impl Scenario for OpenSim {
     }
 
     fn rule(&self) -> String {
-        "one run = a feed price living through 30-300 timeline steps (new report with status 0..=6 or an invalid byte, open flag, last-update tracking off/seconds/nanoseconds with boundary diffs, timestamp now/ago/ahead/absolute/at the freshness edges; policy change; timeout change; clock advance/stall/regress/jump incl. i64::MIN/MAX and edges of the two freshness limits; query with the current or another timeout); run kinds: ordinary (50%), extreme jumps (35%), regressions (15%). is_market_open is compared with the reference after every step. distinct_nontrivial counts trigrams of (op, open/closed) plus fingerprints (status, policy verdict, open flag, tracking mode, report-age class {below i64, negative, 0, <T, =T, >T, above i64}, update fresh?, op)".into()
+        "one run = a feed price living through 20-12000 timeline steps (new report with status 0..=6 or an invalid byte, open flag, last-update tracking off/seconds/nanoseconds with boundary diffs, timestamp now/ago/ahead/absolute/at the freshness edges; policy change; timeout change; clock advance/stall/regress/jump incl. i64::MIN/MAX and edges of the two freshness limits; query with the current or another timeout); run kinds: ordinary (50%), extreme jumps (35%), regressions (15%). is_market_open is compared with the reference after every step. distinct_nontrivial counts trigrams of (op, open/closed) plus fingerprints (status, policy verdict, open flag, tracking mode, report-age class {below i64, negative, 0, <T, =T, >T, above i64}, update fresh?, op)".into()
     }
 }
